@@ -108,6 +108,19 @@ def more_frames(seed, base, F, d, tag):
     return [x.tolist() for x in fr]
 
 
+def varying_cells(H, F):
+    """frame f: edge lengths scaled per axis by dyadic factors, tilts scaled by (1, -1, 1/2, ...)"""
+    H = np.array(H, float)
+    d = len(H)
+    out = []
+    for f in range(F):
+        sc = np.array([[1.0, 1.0, 1.0], [1.25, 0.875, 1.125], [0.875, 1.25, 1.0]][f % 3][:d])
+        tf = [1.0, -1.0, 0.5][f % 3]
+        Hf = np.diag(np.diag(H) * sc) + (H - np.diag(np.diag(H))) * tf
+        out.append(Hf.tolist())
+    return out
+
+
 def frame_counts(name, mask, cell):
     """F = 1 everywhere; three different frames where the mask is fully periodic (deviation bound on the mask axis)."""
     return (1, 3) if all(mask) and name in ("jl", "cluster") else (1,)
@@ -128,6 +141,10 @@ def gen_nnearest(tier, seed):
                         for N in range(1, len(pts)):
                             yield {"kind": "nn", "slice": name, "d": d, "cell": cell, "H": H.tolist(), "ppp": mask,
                                    "frames": frames, "N": N}
+                            if F > 1:
+                                # the cell changes from frame to frame (volume and tilt: NPT / sheared trajectories)
+                                yield {"kind": "nn", "slice": name, "d": d, "cell": cell, "H": H.tolist(), "H_frames": varying_cells(H, F),
+                                       "ppp": mask, "frames": frames, "N": N}
         big = large_placement(seed, d)
         for cell, mask in LARGE_GEOMS[d]:
             for N in ((1, 6, 12, len(big) - 1) if tier == "quick" else range(1, len(big))):
@@ -160,6 +177,9 @@ def gen_cutoff(tier, seed):
                         for rc in (rcs if F == 1 else rcs[1:-1:3]):
                             yield {"kind": "cut", "slice": name, "d": d, "cell": cell, "H": H.tolist(), "ppp": mask,
                                    "frames": frames, "rc": rc}
+                            if F > 1:
+                                yield {"kind": "cut", "slice": name, "d": d, "cell": cell, "H": H.tolist(), "H_frames": varying_cells(H, F),
+                                       "ppp": mask, "frames": frames, "rc": rc}
         big = large_placement(seed, d)
         for cell, mask in LARGE_GEOMS[d]:
             H = cell_for(d, cell)
@@ -237,6 +257,8 @@ def gen_cutoff_type(tier, seed):
                 for Rm in matrices(2, vals, 2):
                     yield {"kind": "type", "slice": "jl", "d": d, "cell": cell, "H": H.tolist(), "ppp": mask,
                            "frames": more_frames(seed, pts, 3, d, f"ty{d}"), "types": types, "R": Rm}
+                    yield {"kind": "type", "slice": "jl", "d": d, "cell": cell, "H": H.tolist(), "H_frames": varying_cells(H, 3), "ppp": mask,
+                           "frames": more_frames(seed, pts, 3, d, f"ty{d}"), "types": types, "R": Rm}
     # dyadic: matrix entries EQUAL to pair distances
     d = 2
     dp = dyadic_placements(2, "quick")
@@ -297,18 +319,21 @@ def run_calc(case):
         sig["K"] = len(Rm)
         sig["asym"] = bool((Rm != Rm.T).any())
     thr = thresholds(case, n)
-    tables = [NB.dist_table(p, H, ppp) for p in frames]
+    Hf = [np.array(h, float) for h in case["H_frames"]] if case.get("H_frames") else [H] * len(frames)
+    if case.get("H_frames"):
+        sig["cell_varies"] = True
+    tables = [NB.dist_table(p, h, ppp) for p, h in zip(frames, Hf)]
     # ---- margins: screen BEFORE the implementation runs
     if sl != "dyadic":
-        for p, D in zip(frames, tables):
+        for p, D, h in zip(frames, tables, Hf):
             m = min(NB.rank_margin(D), NB.self_margin(D))
             if thr is not None:
                 m = min(m, NB.cut_margin(D, thr))
             if case["cell"] != "orth":
-                m = min(m, NB.geometry_margin(p, H, ppp))
+                m = min(m, NB.geometry_margin(p, h, ppp))
             if m < MARGIN:
                 return R.screen()
-    snaps = mk_snaps(frames, H, types)
+    snaps = mk_snaps(frames, np.array(Hf) if case.get("H_frames") else H, types)
     before = [s.positions.copy() for s in snaps.snapshots]
     call_library(case, snaps, FN)
     with open(FN) as f:
